@@ -245,6 +245,7 @@ const knownSlowCollector = "fast-hotstuff-collector-with-slower-timer-loses-its-
 type syncCase struct {
 	Cfg    Config
 	Rounds int
+	SlowLink int `json:",omitempty"` // > 0 (with Slow): the direct link from this replica to the slow-timer replica is slower than the two-hop paths - its messages to that replica arrive after everything else that is in flight
 	Slow   int `json:",omitempty"` // > 0: the view timer of this replica is slower than the others': it fires after the others' timeout messages have been delivered (all messages still arrive long before any timer)
 }
 
@@ -304,7 +305,7 @@ func syncProp(c syncCase) common.Result {
 	for it := 0; it < iterations; it++ {
 		if len(cl.deliverable()) > 0 {
 			cl.Burst(1)
-			if fp, msg := check(); fp != "" {
+			if fp, msg := check(); fp != "" && cl.Inconclusive == "" {
 				if c.Slow > 0 && c.Cfg.Rules == "fasthotstuff" && (fp == "sync:chain-shape" || fp == "sync:commit-lag") {
 					return common.Fail(knownSlowCollector, "%s\n(the view timer of replica %d fires after the others' timeout messages were delivered)\nconfig: %s", msg, c.Slow, c.Cfg.Describe())
 				}
@@ -323,7 +324,23 @@ func syncProp(c syncCase) common.Result {
 		}
 		if slow != nil {
 			// the others' timeout messages travel first; then the slow timer fires (for the view the replica is in by then)
+			var held []Msg
 			for k := 0; k < 4 && len(cl.deliverable()) > 0; k++ {
+				if c.SlowLink > 0 && c.SlowLink != c.Slow {
+					// what the slow link carries stays in flight while everything else (including what other replicas
+					// send on after receiving it) is delivered
+					for i := 0; i < len(cl.Pool); {
+						if m := cl.Pool[i]; int(cl.Stacks[m.From].ID) == c.SlowLink && m.To == slow.Idx {
+							held = append(held, cl.remove(i))
+							continue
+						}
+						i++
+					}
+				}
+				cl.Burst(1)
+			}
+			cl.Pool = append(cl.Pool, held...)
+			for k := 0; k < 2 && len(cl.deliverable()) > 0; k++ {
 				cl.Burst(1)
 			}
 			cl.FireTimeout(slow)
@@ -333,6 +350,12 @@ func syncProp(c syncCase) common.Result {
 		if st.VS.View() > views {
 			views = st.VS.View()
 		}
+	}
+	if cl.Inconclusive != "" {
+		// the run was cut short by a harness guard (an event loop that did not quiesce within the guard, or the watchdog on a
+		// loaded machine): nothing can be said about progress
+		common.Get("C05").Inconclusive(cl.Inconclusive)
+		return common.OK(false, "", "sync inconclusive")
 	}
 	newest := len(cl.AllBlk) - 1
 	if newest < c.Rounds && c.Slow > 0 && c.Cfg.Rules == "fasthotstuff" {
@@ -345,7 +368,7 @@ func syncProp(c syncCase) common.Result {
 	if c.Slow > 0 {
 		cls = append(cls, "sync one-slow-timer")
 	}
-	return common.OK(true, c.Cfg.Describe()+fmt.Sprint(c.Rounds, c.Slow), cls...)
+	return common.OK(true, c.Cfg.Describe()+fmt.Sprint(c.Rounds, c.Slow, c.SlowLink), cls...)
 }
 
 func TestC05FaultFree(t *testing.T) {
@@ -364,6 +387,9 @@ func TestC05FaultFree(t *testing.T) {
 		sc := syncCase{Cfg: cfg, Rounds: rapid.IntRange(4, 14).Draw(rt, "rounds")}
 		if rapid.IntRange(0, 2).Draw(rt, "slow-timer") == 0 {
 			sc.Slow = rapid.IntRange(1, cfg.N).Draw(rt, "slow")
+			if rapid.Bool().Draw(rt, "slow-link") {
+				sc.SlowLink = rapid.IntRange(1, cfg.N).Draw(rt, "slow-link-from")
+			}
 		}
 		return sc
 	}, syncProp)
